@@ -84,13 +84,15 @@ def r1_convert(run, F):
     run.floor("R1-ADJUST", 6)
     run.floor("R1-UNCHANGED", 45)
     # adjust closure subtracts num_skipped_nodes
-    cl = None
-    for n in walk(b["hir"]):
-        if n.get("k") == "Let" and n["pat"].get("name") == "adjust":
-            cl = n["init"]
-    run.require(cl is not None and cl.get("k") == "Closure", "adjust closure not found")
+    cls = [n["init"] for n in walk(b["hir"]) if n.get("k") == "Let" and isinstance(n.get("init"), dict) and n["init"].get("k") == "Closure"]
+    run.require(len(cls) == 1, "convert_for_head: the id-adjusting closure was not found (%d closures bound by let)" % len(cls))
+    cl = cls[0]
     subs = [n for n in walk(cl["body"]) if n.get("k") == "Binary" and n.get("op") == "Sub"]
-    ok = len(subs) == 1 and hirq.local_name_of(subs[0]["rhs"]) == "num_skipped_nodes" and hirq.local_name_of(subs[0]["lhs"]) == "i"
+    # by role: the subtrahend is the function's (non-self) parameter, the minuend derives from the closure's own parameter
+    from rules import origins as _or
+    skipped_param = [q.get("lid") for q in b.get("params", []) if q.get("name") != "self"]
+    ok = len(subs) == 1 and len(skipped_param) == 1 and hirq.unwrap_trivial(subs[0]["rhs"]).get("lid") == skipped_param[0] \
+        and ("closureparam",) in _or.origins(b["hir"], subs[0]["lhs"], b.get("params", ()))
     run.ob("R1-ADJUST", "closure: i - num_skipped_nodes", ok, F.where(b, cl), "adjust must subtract the number of skipped nodes")
     # is_declaration
     isd = F.body(PN + "::is_declaration")
@@ -217,30 +219,41 @@ def r3_build(run, F):
             m = mm
     run.require(m is not None, "zone match not found in build_header_nodes")
     special = set()
+    skip_lid = None
     for a in m["arms"]:
         for alt in hirq.pat_alts(a["pat"]):
             if hirq.is_catchall(alt):
                 # general arm: push(node.convert_for_head(num_skipped_nodes))
                 cs = list(hirq.calls(a["body"]))
                 conv = [c for c in cs if hirq.callee(c) == PN + "::convert_for_head"]
-                ok = len(conv) == 1 and hirq.local_name_of(conv[0]["a"][0]) == "num_skipped_nodes"
-                pushes = [c for c in cs if c.get("k") == "Call" and hirq.local_name_of(c["f"]) == "push"]
-                ok = ok and len(pushes) == 1 and any(x is conv[0] for x in walk(pushes[0]))
+                a0 = hirq.unwrap_trivial(conv[0]["a"][0]) if len(conv) == 1 and conv[0].get("a") else {}
+                ok = len(conv) == 1 and a0.get("k") == "Path" and a0.get("rk") == "Local"
+                if ok:
+                    skip_lid = a0.get("lid")
+                # the converted node is handed to the local `push` closure (a call through a local)
+                pushes = [c for c in cs if c.get("k") == "Call" and hirq.unwrap_trivial(c["f"]).get("rk") == "Local" and any(x is conv[0] for x in walk(c))] if ok else []
+                ok = ok and len(pushes) == 1
                 run.ob("R3-CONVERT-ALL", "general-arm", ok, F.where(b, a),
                        "every non-marker node must be pushed as node.convert_for_head(num_skipped_nodes)")
             else:
                 special.add(hirq.pat_key(alt).split("::")[-1])
     run.ob("R3-SKIP-ONLY-MARKERS", "arms", special == {"StartPrivateZone", "EndPrivateZone", "EndlessPrivateZone"}, F.where(b, m),
            "only the three zone markers may be skipped; special arms: %s" % sorted(special))
-    # skip count: num_skipped_nodes += end + 1 - i ; i = end ; i += 1
+    # skip count: <counter> += <zone end> + 1 - <index>, by role: the counter is the local handed to convert_for_head, the index is
+    # the local that indexes self.nodes in the scrutinee, the zone end derives from StartPrivateZone.end
+    from rules import origins as _or
+    sc = hirq.unwrap_trivial(m["scrut"])
+    idx_lids = set(x.get("lid") for x in walk(sc) if x.get("k") == "Path" and x.get("rk") == "Local" and x.get("res") != "self")
     ok = False
     for n in walk(b["hir"]):
-        if n.get("k") == "AssignOp" and hirq.local_name_of(n["lhs"]) == "num_skipped_nodes" and n.get("op") in ("AddAssign", "Add"):
-            r = n["rhs"]
-            if r.get("k") == "Binary" and r["op"] == "Sub" and hirq.local_name_of(r["rhs"]) == "i":
-                l = r["lhs"]
-                if l.get("k") == "Binary" and l["op"] == "Add" and hirq.local_name_of(l["lhs"]) == "end" and l["rhs"].get("v") == 1:
-                    ok = True
+        if n.get("k") == "AssignOp" and hirq.unwrap_trivial(n["lhs"]).get("lid") == skip_lid and skip_lid is not None and n.get("op") in ("AddAssign", "Add"):
+            r = hirq.unwrap_trivial(n["rhs"])
+            if r.get("k") == "Binary" and r["op"] == "Sub" and hirq.unwrap_trivial(r["rhs"]).get("lid") in idx_lids:
+                l = hirq.unwrap_trivial(r["lhs"])
+                if l.get("k") == "Binary" and l["op"] == "Add" and hirq.unwrap_trivial(l["rhs"]).get("v") == 1:
+                    oe = _or.origins(b["hir"], l["lhs"], b.get("params", ()))
+                    if any(k[0] == "patfield" and k[2] == "end" for k in oe):
+                        ok = True
     run.ob("R3-SKIP-COUNT", "num_skipped_nodes += end + 1 - i", ok, F.where(b),
            "the skipped range is i..=end, so the count must grow by end + 1 - i")
     # build_header: declarations recomputed with is_declaration on the *new* nodes
